@@ -13,15 +13,21 @@
         anchor tokens: the theorem's equality of token lists includes them);
      N  the spelling of a number literal: replaced by the formatter's spelling of its value
         (`canon_num`: 0x1F, 1_000, 1e3 ...);
-     M  the kind of a member name after `.` / `?.`: Operator-kind words (`a.not`, `a.in`) become
-        Identifier tokens;
+     M  the kind of a member name after `.` / `?.`: Operator-kind words (`a.not`, `a.in`: values that are
+        valid identifiers) become Identifier tokens;
      K  the kind of a bare map key: `{a: 1}`, `{1: 1}`, `{"a": 1}` all become a String token;
      P  the implicit pointer: `.x` where an operand is expected becomes `# . x` (the inserted `#`
-        carries the location of the `.`, which is where the parser locates the PointerNode);
+        carries the location of the `.`, which is where the parser locates the PointerNode; `?.` in that
+        position is left alone: the parser rejects it);
      S  the sticky nil-safe flag: after `?.` every further `.` of the same chain is spelled `?.`
         (the parser sets NilSafe on all later steps of the chain; the printer spells NilSafe as `?.`);
-     C  a trailing comma before `]` of an array or `}` of a map is dropped;
+     C  a trailing comma after an element and before the `]` of an array or the `}` of a map is dropped;
      E  everything after the first EOF token is dropped (the parser stops there).
+
+   The rewriting rules are restricted to the situations in which the parser treats the two spellings alike, so
+   that (as far as known: bounded sweep `check_all` in Parse/SoundCorProofs.v, theorem only for `plain`
+   sequences) a rejected sequence is never normalised to a printing.  `[` after an operand opens an index
+   (frame KIndex: no trailing comma), elsewhere an array (KBrack).
 
    Where the parser accepts a sequence that is NOT a spelling of any printing, `norm` emits the
    token `poison` (kind EOF, value "poison": no printing contains it), so that the carve-out of the
@@ -61,7 +67,8 @@ Inductive nst :=
 | NEnd (fl : bool)      (* an operand has ended; fl = sticky nil-safe flag of its chain *)
 | NDot (fl : bool).     (* a member name is expected; fl = flag the step gets *)
 
-Inductive bkind := KParen | KCall2 | KBrack | KMap | KClos | KKey.
+Inductive bkind := KParen | KCall2 | KBrack | KIndex | KMap | KClos | KKey.
+Definition is_end (st : nst) : bool := match st with NEnd _ => true | _ => false end.
 Definition frame := (bool * bkind)%type.       (* flag of the enclosing chain, kind of the bracket *)
 
 Definition flag_of (st : nst) : bool := match st with NEnd fl | NDot fl => fl | _ => false end.
@@ -131,7 +138,7 @@ Section Norm.
           if val_is tk "(" then
             lparen :: norm NOpen ((flag_of st, if in_key_pos st then KKey else KParen) :: stk) r
           else if val_is tk "[" then
-            mkTok (tloc tk) TkBracket "[" :: norm NOpen ((flag_of st, KBrack) :: stk) r
+            mkTok (tloc tk) TkBracket "[" :: norm NOpen ((flag_of st, if is_end st then KIndex else KBrack) :: stk) r
           else if val_is tk "{" then
             match st with
             | NOpenC => mkTok (tloc tk) TkBracket "{" :: norm NOpen ((false, KClos) :: stk) r
@@ -144,20 +151,22 @@ Section Norm.
           else tk :: norm NOpen stk r
       | TkOperator =>
           match st with
-          | NDot fl => mkTok (tloc tk) TkIdentifier (tval tk) :: norm (NEnd fl) stk r          (* M *)
+          | NDot fl => (if valid_identifier (tval tk) then mkTok (tloc tk) TkIdentifier (tval tk) else tk) ::   (* M *)
+                       norm (NEnd fl) stk r
           | _ =>
             if is_dot tk then
               match st with
               | NEnd fl => let fl' := fl || val_is tk "?." in dot_tok fl' :: norm (NDot fl') stk r   (* S *)
-              | _ => mkTok (tloc tk) TkOperator "#" :: dot_tok (val_is tk "?.") ::              (* P *)
-                     norm (NDot (val_is tk "?.")) stk r
+              | _ => if val_is tk "." then
+                       mkTok (tloc tk) TkOperator "#" :: dot_tok false :: norm (NDot false) stk r     (* P *)
+                     else tk :: norm NOpen stk r
               end
             else if val_is tk "," then
               match top_kind stk with
               | KCall2 => comma :: norm NOpenC stk r
-              | KMap => if tok_is nx TkBracket ["}"%string] then norm (NEnd false) stk r        (* C *)
+              | KMap => if is_end st && tok_is nx TkBracket ["}"%string] then norm (NEnd false) stk r     (* C *)
                         else comma :: norm NOpenK stk r
-              | KBrack => if tok_is nx TkBracket ["]"%string] then norm (NEnd false) stk r      (* C *)
+              | KBrack => if is_end st && tok_is nx TkBracket ["]"%string] then norm (NEnd false) stk r   (* C *)
                           else comma :: norm NOpen stk r
               | _ => comma :: norm NOpen stk r
               end
@@ -186,7 +195,7 @@ Section Norm.
           end
       | TkNumber =>
           match st with
-          | NDot fl => mkTok (tloc tk) TkIdentifier (tval tk) :: norm (NEnd fl) stk r
+          | NDot fl => tk :: norm (NEnd fl) stk r
           | _ =>
             if in_key_pos st && is_colon nx then mkTok noloc TkString (tval tk) :: norm (NEnd false) stk r   (* K *)
             else mkTok (tloc tk) TkNumber (canon_num (tval tk)) ::                              (* N *)
@@ -194,7 +203,7 @@ Section Norm.
           end
       | TkString =>
           match st with
-          | NDot fl => mkTok (tloc tk) TkIdentifier (tval tk) :: norm (NEnd fl) stk r
+          | NDot fl => tk :: norm (NEnd fl) stk r
           | _ =>
             if in_key_pos st && is_colon nx then mkTok noloc TkString (tval tk) :: norm (NEnd false) stk r   (* K *)
             else tk :: mark (pfx_start nx) (norm (NEnd false) stk r)                            (* p1 *)
